@@ -157,7 +157,8 @@ def _assign_case(job):
                 elif case["repr"] == "unknown key":
                     cfg = assign(route, sec, "verif unknown key", 1, tmp)
                 else:
-                    val = "" if case["repr"] == "empty string" else None
+                    val = {"empty string": "", "empty bytes": b""}.get(
+                        case["repr"])
                     cfg = assign(route, sec, key, val, tmp)
         except Exception as exc:
             out.append(("assignment raises %s (%s %s via %s)" % (
@@ -169,7 +170,7 @@ def _assign_case(job):
             # (a default value may exist for the key; the rejected value
             # itself must not have been stored)
             if k2 in cfg[sec] and (case["repr"] == "unknown key"
-                                   or cfg[sec][k2] in ("", None)):
+                                   or cfg[sec][k2] in ("", b"", None)):
                 out.append(("rejected input is stored (%s)" % case["repr"],
                             "%s:%s via %s" % (sec, k2, route)))
             elif not wl:
